@@ -19,6 +19,15 @@ def _keeper(w, src, dname):
     return Keeper()
 
 
+def _holder(cell):
+    from amaranth.hdl import Elaboratable
+
+    class Holder(Elaboratable):
+        def elaborate(self, platform):
+            return cell
+    return Holder()
+
+
 def build_design(desc):
     from amaranth.hdl import Module, Signal, ClockSignal, ResetSignal, Instance, Const, DomainRenamer, MemoryData, MemoryInstance
     from amaranth.lib.memory import Memory
@@ -43,8 +52,12 @@ def build_design(desc):
         m.d.comb += [tap.eq(x), tap2.eq(tap)]
         if sub.get("inst"):
             o = Signal(2, name="inst_o")
-            m.submodules += Instance("ext_block", i_clk=ClockSignal(sub["dom"]), i_rst=ResetSignal(sub["dom"]),
-                                     i_d=x, o_q=o, p_WIDTH=sub["w"], a_keep=1)
+            cell = Instance("ext_block", i_clk=ClockSignal(sub["dom"]), i_rst=ResetSignal(sub["dom"]),
+                            i_d=x, o_q=o, p_WIDTH=sub["w"], a_keep=1)
+            if sub.get("inst_kept"):
+                m.submodules.holder = _holder(cell)       # a component whose elaborate() returns the instance it keeps
+            else:
+                m.submodules += cell
             ports.append(o)
         if sub.get("mem"):
             mem = Memory(shape=max(sub["w"], 1), depth=3, init=[1, 2])
